@@ -437,6 +437,19 @@ def run_randind(c):
     r1, w = run(c, fn2)
     r2, _ = run(c, fn2)
     require(len(set(r1)) == 1 and r1 == r2, "randind with a seeded RandomState is not reproducible / not agreed", a=r1, b=r2)
+    # unseeded: every rank has its own generator state (here: successive draws of the process-wide generator, an
+    # unseeded RandomState per rank); only one rank may draw, all ranks must still agree on one existing element
+    for how in ("none", "fresh_randomstate"):
+        def fn3(rank):
+            la = np.arange(loc_n[rank])
+            rs_ = None if how == "none" else np.random.RandomState()
+            return tuple(int(x) for x in ops.randind(la, rs_))
+        r3, w = run(c, fn3)
+        require(len(set(r3)) == 1, "ranks disagree on the element chosen by randind with an unseeded generator (%s)" % how,
+                got=r3)
+        o, i = r3[0]
+        require(0 <= o < size and 0 <= i < loc_n[o], "randind (unseeded) returned an element that does not exist",
+                owner=o, index=i)
     nt = size >= 2 and len(set(loc_n)) > 1
     return Info(nt, classes(c, w, ["randind_exhaustive=%s" % (total <= 12)]))
 
